@@ -187,7 +187,7 @@ func Main(prop string) {
 			shrinkIds = a.Rest[i]
 		}
 	}
-	const budget = 6000
+	const budget = 4000
 	if pf := os.Getenv("REFGEN_CPUPROFILE"); pf != "" {
 		f, _ := os.Create(pf)
 		pprof.StartCPUProfile(f)
